@@ -9,6 +9,7 @@ from . import core
 ENGINES = {
     "C49": "e9_iotree",
     "C50": "e10_stream",
+    "C48": "e1_cache",
 }
 
 
